@@ -462,19 +462,32 @@ def _paa(repo, d):
           and fr[2][1] == fr[3] and fr[3][0] == "fo",
           "per-series result: frames (+ the lost last frame)", fr)
     fold, kf = fr[3][1], fr[3][2]
-    _need(fold[0] == "fold" and len(fold[3]) == 4, "a loop over four state variables", fold)
+    _need(fold[0] == "fold" and len(fold[3]) in (3, 4),
+          "a loop over the frames, (a frame counter,) the frame size and the frame sum", fold)
     fid, bid = fold[5], fold[1]
+    nstate = len(fold[3])
+    # the lost-frame test compares the number of completed frames: a counter kept by the loop, or
+    # the length of the list of frames (the model keeps a counter; Bridge.v proves that it IS the
+    # length of the list)
     cnt = [x for x in (fr[1][2], fr[1][3]) if x[0] == "fo" and x[1] == fold]
-    _need(len(cnt) == 1, "the lost-frame test compares one loop counter", fr[1])
-    kc = cnt[0][2]
+    lenfr = E(aev, "len(f)", f=fr[3])
+    if nstate == 4:
+        _need(len(cnt) == 1, "the lost-frame test compares one loop counter", fr[1])
+        kc, counter = cnt[0][2], cnt[0]
+    else:
+        _need(not cnt and lenfr in (fr[1][2], fr[1][3]),
+              "the lost-frame test compares the number of frames", fr[1])
+        kc, counter = None, lenfr
     tail = fr[2][2]
     nums = [x for x in walk(tail) if is_term(x) and x[0] == "fo" and x[1] == fold]
     _need(len(nums) == 1, "the tail uses one accumulated sum", tail)
     ks = nums[0][2]
-    _need(len({kf, kc, ks}) == 3, "three distinct roles", fr)
-    kz = ({0, 1, 2, 3} - {kf, kc, ks}).pop()
+    roles = {kf, ks} | ({kc} if kc is not None else set())
+    _need(len(roles) == nstate - 1, "distinct roles", fr)
+    kz = (set(range(nstate)) - roles).pop()
     init = fold[3]
-    _need(init[kf] == ("l", ()) and init[kc] == C(0) and init[ks] == C(0) and init[kz] == C(0),
+    _need(init[kf] == ("l", ()) and init[ks] == C(0) and init[kz] == C(0)
+          and (kc is None or init[kc] == C(0)),
           "initial state: no frames, zero counter / size / sum", init)
     # the loop visits every time point of the series: by value, or by index 0..num_atts-1
     if fold[2] == series:
@@ -490,18 +503,21 @@ def _paa(repo, d):
     d.q.append("Definition gen_paa_len (na m : Q) : Q := %s.\n"
                % qexpr(fl, zenv(na=na, m=attr("num_intervals"))))
     d.addz("gen_paa_last", "cur m", "bool",
-           zcmp(fr[1], {canon(cnt[0]): "cur", canon(attr("num_intervals")): "m"}))
+           zcmp(fr[1], {canon(counter): "cur", canon(attr("num_intervals")): "m"}))
     d.q.append("Definition gen_paa_tail (s L : Q) : Q := %s.\n"
                % qexpr(tail, {canon(nums[0]): "s", canon(fl): "L"}))
     qenv = {canon(("st", fid, kz)): "(sz st)", canon(("st", fid, ks)): "(sm st)",
             canon(fl): "L", canon(value): "x"}
     lenv = {canon(("st", fid, kf)): "(fr st)", "@q": qenv}
-    nenv = {canon(("st", fid, kc)): "(cur st)", "@q": qenv}
     outs = fold[4]
+    frames_out = qlistexpr(outs[kf], lenv)
+    if kc is not None:
+        cur_out = natexpr(outs[kc], {canon(("st", fid, kc)): "(cur st)", "@q": qenv})
+    else:
+        cur_out = "(length %s)" % frames_out         # the number of completed frames
     d.q.append("Definition gen_paa_step (L : Q) (st : paa_st) (x : Q) : paa_st :=\n"
                "  {| fr := %s;\n     cur := %s;\n     sz := %s;\n     sm := %s |}.\n"
-               % (qlistexpr(outs[kf], lenv), natexpr(outs[kc], nenv), qexpr(outs[kz], qenv),
-                  qexpr(outs[ks], qenv)))
+               % (frames_out, cur_out, qexpr(outs[kz], qenv), qexpr(outs[ks], qenv)))
 
 
 # ------------------------------------------------------------------------------------------------
@@ -534,31 +550,49 @@ def _rife(repo, d):
     ivs = attr("intervals_")
     feats = None
     outer = body[loops[0]]
-    _need(len(outer.body) == 1 and isinstance(outer.body[0], ast.For) and not outer.orelse
-          and not outer.body[0].orelse, "two nested loops")
-    inner = outer.body[0]
-    kinds = {}
+    _need(not outer.orelse, "for ... else")
+    # the iteration plan: (iterated term, target) from the outside in, the statements executed per
+    # (feature, interval) pair, and how the column counter is kept.  Accepted: two nested loops,
+    # or ONE loop over itertools.product(outer, inner) (= the same nesting); the counter is a
+    # variable advanced by hand or the index of enumerate(..).
+    enum_counter = None
+    it0, tg0 = ev.expr(outer.iter, env), outer.target
+    if it0[0] == "call" and it0[1] == ("s", "enumerate") and len(it0[2]) == 1 and not it0[3]:
+        _need(isinstance(tg0, ast.Tuple) and len(tg0.elts) == 2
+              and isinstance(tg0.elts[0], ast.Name), "for i, .. in enumerate(..)")
+        enum_counter, tg0, it0 = tg0.elts[0].id, tg0.elts[1], it0[2][0]
+    if it0[0] == "call" and it0[1] in (("s", "product"), ("a", ("s", "itertools"), "product")) \
+            and len(it0[2]) == 2 and not it0[3]:
+        _need(isinstance(tg0, ast.Tuple) and len(tg0.elts) == 2, "for a, b in product(A, B)")
+        plan = [(it0[2][0], tg0.elts[0]), (it0[2][1], tg0.elts[1])]
+        pair_body = outer.body
+    else:
+        _need(enum_counter is None and len(outer.body) == 1 and isinstance(outer.body[0], ast.For)
+              and not outer.body[0].orelse, "two nested loops")
+        inner = outer.body[0]
+        plan = [(it0, tg0), (ev.expr(inner.iter, env), inner.target)]
+        pair_body = inner.body
+    kinds = []
     lenv = dict(env)
-    for lp in (outer, inner):
-        it = ev.expr(lp.iter, env)
-        if canon(it) != canon(ivs) and isinstance(lp.target, ast.Name) and feats is None:
+    for it, target in plan:
+        if canon(it) != canon(ivs) and isinstance(target, ast.Name) and feats is None:
             # the other loop: its variable is the feature function applied to the interval
             # (checked below: `func(interval, axis=-1)`), whatever validated list it runs over
             _need(has(it, lambda x: x == ("a", SELF, "features")),
                   "the feature loop runs over (the validated) self.features", it)
             feats = it
-            kinds[lp] = "F"
-            lenv[lp.target.id] = ("s", "@func")
+            kinds.append("F")
+            lenv[target.id] = ("s", "@func")
         elif canon(it) == canon(ivs):
-            _need(isinstance(lp.target, ast.Tuple) and len(lp.target.elts) == 2
-                  and all(isinstance(e, ast.Name) for e in lp.target.elts),
+            _need(isinstance(target, ast.Tuple) and len(target.elts) == 2
+                  and all(isinstance(e, ast.Name) for e in target.elts),
                   "for start, end in intervals")
-            kinds[lp] = "V"
-            lenv[lp.target.elts[0].id] = ("s", "@a")
-            lenv[lp.target.elts[1].id] = ("s", "@b")
+            kinds.append("V")
+            lenv[target.elts[0].id] = ("s", "@a")
+            lenv[target.elts[1].id] = ("s", "@b")
         else:
             raise Unsupported("loop over " + show(it))
-    _need(sorted(kinds.values()) == ["F", "V"], "loops over the features and over the intervals")
+    _need(sorted(kinds) == ["F", "V"], "loops over the features and over the intervals")
     # the output array and its running column counter
     xt = [k for k, v in env.items() if is_term(v) and v[0] == "call"
           and v[1] == ("a", ("s", "np"), "zeros")]
@@ -571,7 +605,7 @@ def _rife(repo, d):
            zexpr(alloc[2][0][1][1], zenv(nf=E(ev, "len(f)", f=feats), ni=E(ev, "len(v)", v=ivs))))
     # inner body: temporaries, one try writing column <counter>, counter += 1, a column name
     counter, lo_hi, wrote, named = None, None, 0, 0
-    for st in inner.body:
+    for st in pair_body:
         if isinstance(st, ast.Assign) and all(
                 isinstance(n, (ast.Name, ast.Tuple, ast.Store)) for t in st.targets
                 for n in ast.walk(t)):
@@ -620,14 +654,18 @@ def _rife(repo, d):
             pass                                      # column label
         else:
             raise Unsupported("statement in the feature loop: " + ast.unparse(st).split("\n")[0])
-    _need(wrote == 1 and named == 1 and counter is not None and env.get(counter) == C(0),
-          "one write per (feature, interval) at a counter that starts at 0 and advances by 1")
+    if enum_counter is not None:
+        _need(wrote == 1 and named == 0 and counter == enum_counter,
+              "one write per (feature, interval) at the index of enumerate(..)")
+    else:
+        _need(wrote == 1 and named == 1 and counter is not None and env.get(counter) == C(0),
+              "one write per (feature, interval) at a counter that starts at 0 and advances by 1")
     env2 = zenv(a=("s", "@a"), b=("s", "@b"))
     d.addz("gen_rife_lo", "a b", "Z", zexpr(lo_hi[0], env2))
     d.addz("gen_rife_hi", "a b", "Z", zexpr(lo_hi[1], env2))
     # the counter advances once per inner iteration: position = outer * n_inner + inner
     d.addz("gen_rife_pos", "nf ni f v", "Z",
-           "((f * ni) + v)" if kinds[outer] == "F" else "((v * nf) + f)")
+           "((f * ni) + v)" if kinds[0] == "F" else "((v * nf) + f)")
 
 
 # ------------------------------------------------------------------------------------------------
